@@ -67,6 +67,8 @@ def contracts():
 """, at=[("before_tail", None, 1, """
     proof {
         let p = file_path_spec(*fm, file_type);
+        // (stated before the trace below: a failed proof step is assumed by the verifier, and must not hide this clause)
+        assert(w.fs.files.contains_key(p) && w.fs.files[p] == data@); //@C02.exact_content
         assert(w.fs.events =~= old(w).fs.events + write_trace(*fm, file_type, !old(w).fs.files.contains_key(p))); //@C10.file_hook_bracket,C13.chown_after_write
     }""")])
     for name, ft in [("set_account_data", "Account"), ("write_certificate", "Certificate")]:
@@ -205,7 +207,7 @@ impl HookEnvData for FileStorageHookData {
 pub fn call<L: HasLogger, T: HookEnvData>(logger: &L, hooks: &[Hook], data: &T, hook_type: HookType, Tracked(w): Tracked<&mut World>) -> (r: Result<(), Error>)
     ensures final(w).clock == old(w).clock, final(w).admissions == old(w).admissions, final(w).net == old(w).net,
         final(w).fs.files == old(w).fs.files, final(w).fs.modes == old(w).fs.modes,
-        final(w).fs.events == old(w).fs.events.push(FsEvent::Hook { ty: hook_type_id(hook_type), data: hook_data_id(*data) }),
+        final(w).fs.events == old(w).fs.events.push(FsEvent::Hook { ty: hook_type_id(hook_type), data: hook_data_id(*data), ok: r is Ok }),
 { unimplemented!() }
 """
 
@@ -270,7 +272,7 @@ pub open spec fn gid_spec(o: Option<String>) -> Option<u32> {
 }
 pub open spec fn hook_ev(fm: FileManager, t: FileType, ty: HookType) -> FsEvent {
     FsEvent::Hook { ty: crate::hooks::hook_type_id(ty),
-        data: crate::hooks::file_hook_data_id(file_name_spec(fm, t), file_dir_spec(fm, t), file_path_spec(fm, t)) }
+        data: crate::hooks::file_hook_data_id(file_name_spec(fm, t), file_dir_spec(fm, t), file_path_spec(fm, t)), ok: true }
 }
 // the kind of an effect (which hook type / open / write / chown), without its details
 pub open spec fn ev_kind(e: FsEvent) -> int {
